@@ -18,17 +18,19 @@ n0    c = new(call)
 n1    c.wg.Add(1)
 n2    g.calls[key] = c
 n3    g.lock.Unlock()               →  return c, false
-m0    (makeCall) fn starts
+m0    (makeCall) fn starts     (environment input ≠ 0: this execution is going to panic → mp)
 m1    fn returns
+mp    fn panics: `c.val, c.err = …` is skipped (they keep their zero values), the deferred block runs
 m2    c.val, c.err = <fn's result>
 d0    (deferred) g.lock.Lock()
 d1    delete(g.calls, key)
 d2    g.lock.Unlock()
 d3    c.wg.Done()
 r0    return c.val, true, c.err
+px    (after the deferred block of a panicking fn) the panic propagates out of Do/DoEx: the call ends without returning
 ``` -/
 inductive PC
-  | idle | l0 | l1 | w0 | w1 | w2 | n0 | n1 | n2 | n3 | m0 | m1 | m2 | d0 | d1 | d2 | d3 | r0
+  | idle | l0 | l1 | w0 | w1 | w2 | n0 | n1 | n2 | n3 | m0 | m1 | mp | m2 | d0 | d1 | d2 | d3 | r0 | px
   deriving DecidableEq, Repr
 
 structure St where
@@ -43,23 +45,25 @@ structure St where
   key   : Tid → Key
   reg   : Tid → CallId          -- local variable c
   tmp   : Tid → Val             -- fn's result before it is stored
+  pn    : Tid → Bool            -- the goroutine is unwinding a panic of fn (the deferred block runs, then the panic propagates)
   -- ghost
   now    : Nat
   inv    : Tid → Nat            -- clock at the current call's invocation
   leader : CallId → Tid         -- who allocated the call
   linv   : CallId → Nat         -- invocation time of the leader's Do/DoEx call
   lret   : CallId → Option Nat  -- return time of the leader's Do/DoEx call
-  fnres  : CallId → Option Val  -- what the (single) execution of fn for this call returned
+  fnres  : CallId → Option Val  -- outcome of the (single) execution of fn for this call: what it returned; the zero value if it panicked
   ekey   : CallId → Key
   fstart : CallId → Option Nat  -- clock when the execution of fn for this call started
   fend   : CallId → Option Nat  -- … and ended
+  pan    : CallId → Bool        -- the execution of fn for this call panicked
   rets   : List Ret
 
 def init : St :=
   { lock := none, calls := fun _ => none, wg := fun _ => 0, cval := fun _ => 0, next := 0,
-    pc := fun _ => .idle, key := fun _ => 0, reg := fun _ => 0, tmp := fun _ => 0,
+    pc := fun _ => .idle, key := fun _ => 0, reg := fun _ => 0, tmp := fun _ => 0, pn := fun _ => false,
     now := 0, inv := fun _ => 0, leader := fun _ => 0, linv := fun _ => 0, lret := fun _ => none,
-    fnres := fun _ => none, ekey := fun _ => 0, fstart := fun _ => none, fend := fun _ => none, rets := [] }
+    fnres := fun _ => none, ekey := fun _ => 0, fstart := fun _ => none, fend := fun _ => none, pan := fun _ => false, rets := [] }
 
 /-- one atomic step of goroutine `t` with environment input `x`. -/
 def step (s : St) (t : Tid) (x : Nat) : Option St :=
@@ -77,6 +81,7 @@ def step (s : St) (t : Tid) (x : Nat) : Option St :=
                                    val := s.cval (s.reg t), fresh := false } :: s.rets }
   | .n0 => some { s with reg := upd s.reg t s.next, next := s.next + 1, pc := upd s.pc t .n1, now := s.now + 1,
                          wg := upd s.wg s.next 0, cval := upd s.cval s.next 0,
+                         pn := upd s.pn t false, pan := upd s.pan s.next false,
                          fnres := upd s.fnres s.next none, lret := upd s.lret s.next none,
                          fstart := upd s.fstart s.next none, fend := upd s.fend s.next none,
                          leader := upd s.leader s.next t, linv := upd s.linv s.next (s.inv t),
@@ -84,18 +89,24 @@ def step (s : St) (t : Tid) (x : Nat) : Option St :=
   | .n1 => some { s with wg := upd s.wg (s.reg t) (s.wg (s.reg t) + 1), pc := upd s.pc t .n2, now := s.now + 1 }
   | .n2 => some { s with calls := upd s.calls (s.key t) (some (s.reg t)), pc := upd s.pc t .n3, now := s.now + 1 }
   | .n3 => some { s with lock := none, pc := upd s.pc t .m0, now := s.now + 1 }
-  | .m0 => some { s with fstart := upd s.fstart (s.reg t) (some s.now), pc := upd s.pc t .m1, now := s.now + 1 }
+  | .m0 => if x = 0 then some { s with fstart := upd s.fstart (s.reg t) (some s.now), pc := upd s.pc t .m1, now := s.now + 1 }
+           else some { s with fstart := upd s.fstart (s.reg t) (some s.now), pc := upd s.pc t .mp, now := s.now + 1 }
   | .m1 => some { s with tmp := upd s.tmp t x, fnres := upd s.fnres (s.reg t) (some x), pc := upd s.pc t .m2,
                          fend := upd s.fend (s.reg t) (some s.now), now := s.now + 1 }
+  | .mp => some { s with pn := upd s.pn t true, pan := upd s.pan (s.reg t) true, fnres := upd s.fnres (s.reg t) (some 0),
+                         fend := upd s.fend (s.reg t) (some s.now), pc := upd s.pc t .d0, now := s.now + 1 }
   | .m2 => some { s with cval := upd s.cval (s.reg t) (s.tmp t), pc := upd s.pc t .d0, now := s.now + 1 }
   | .d0 => if s.lock = none then some { s with lock := some t, pc := upd s.pc t .d1, now := s.now + 1 } else none
   | .d1 => some { s with calls := upd s.calls (s.key t) none, pc := upd s.pc t .d2, now := s.now + 1 }
   | .d2 => some { s with lock := none, pc := upd s.pc t .d3, now := s.now + 1 }
-  | .d3 => some { s with wg := upd s.wg (s.reg t) (s.wg (s.reg t) - 1), pc := upd s.pc t .r0, now := s.now + 1 }
+  | .d3 => if s.pn t = true then some { s with wg := upd s.wg (s.reg t) (s.wg (s.reg t) - 1), pc := upd s.pc t .px, now := s.now + 1 }
+           else some { s with wg := upd s.wg (s.reg t) (s.wg (s.reg t) - 1), pc := upd s.pc t .r0, now := s.now + 1 }
   | .r0 => some { s with pc := upd s.pc t .idle, now := s.now + 1,
                          lret := upd s.lret (s.reg t) (some s.now),
                          rets := { tid := t, key := s.key t, inv := s.inv t, ret := s.now, exec := s.reg t,
                                    val := s.cval (s.reg t), fresh := true } :: s.rets }
+  | .px => some { s with pc := upd s.pc t .idle, pn := upd s.pn t false, now := s.now + 1,
+                         lret := upd s.lret (s.reg t) (some s.now) }
 
 /-- the statement each program counter stands for (tied to the extracted skeletons in `Tie.lean`). -/
 def stmt : PC → String
@@ -111,20 +122,22 @@ def stmt : PC → String
   | .n3 => "call g.lock.Unlock()"
   | .m0 => "call fn()"
   | .m1 => "fn returns"
+  | .mp => "fn panics"
   | .m2 => "store c.val"
   | .d0 => "call g.lock.Lock()"
   | .d1 => "delete g.calls[key]"
   | .d2 => "call g.lock.Unlock()"
   | .d3 => "call c.wg.Done()"
   | .r0 => "return c.val, true, c.err"
+  | .px => "panic propagates"
 
 /-- control flow of the inlined program: the program counters a step may lead to. -/
 def succ : PC → List PC
   | .idle => [.l0] | .l0 => [.l1] | .l1 => [.w0, .n0]
   | .w0 => [.w1] | .w1 => [.w2] | .w2 => [.idle]
   | .n0 => [.n1] | .n1 => [.n2] | .n2 => [.n3] | .n3 => [.m0]
-  | .m0 => [.m1] | .m1 => [.m2] | .m2 => [.d0]
-  | .d0 => [.d1] | .d1 => [.d2] | .d2 => [.d3] | .d3 => [.r0] | .r0 => [.idle]
+  | .m0 => [.m1, .mp] | .m1 => [.m2] | .mp => [.d0] | .m2 => [.d0]
+  | .d0 => [.d1] | .d1 => [.d2] | .d2 => [.d3] | .d3 => [.r0, .px] | .r0 => [.idle] | .px => [.idle]
 
 /-- run a schedule; `none` as soon as a scheduled step is not enabled. -/
 def run (s : St) : List (Tid × Nat) → Option St
